@@ -21,8 +21,12 @@ const (
 	zzSrcFull    = "1356:chA:sA"
 )
 
+// zzUnordered: services (chain:id) registered as NOT ordered - the interchain contract calls IBTPs
+// to / receipts for such a service "batch" IBTPs.
+var zzUnordered = map[string]bool{}
+
 func zzServiceJSON(chain, id, name string, status governance.GovernanceStatus, permits map[string]struct{}) []byte {
-	s := &servicemgr.Service{ChainID: chain, ServiceID: id, Name: name, Type: servicemgr.ServiceCallContract, Intro: "intro", Ordered: true,
+	s := &servicemgr.Service{ChainID: chain, ServiceID: id, Name: name, Type: servicemgr.ServiceCallContract, Intro: "intro", Ordered: !zzUnordered[chain+":"+id],
 		Permission: permits, Details: "details", CreateTime: 1, EvaluationRecords: map[string]*governance.EvaluationRecord{},
 		InvokeRecords: map[string]*governance.InvokeRecord{}, Status: status}
 	b, err := json.Marshal(s)
